@@ -42,8 +42,8 @@ def add(U, with_lemmas=True, arith_op=True):
     U.prelude('contracts/types.prelude.rs')
 
     f.impl('ArrayDims', [
-        ('dims', dict(ret='r', props=['C20'])),
-        ('num_dims', dict(ret='r', props=['C20'], spec='''
+        ('dims', dict(ret='r', props=['C20', 'C08'])),
+        ('num_dims', dict(ret='r', props=['C20', 'C08'], spec='''
 ensures r == (match *self { ArrayDims::D1(..) => 1usize, ArrayDims::D2(..) => 2usize, ArrayDims::D3(..) => 3usize }),''')),
     ])
     f.impl('Type', [
@@ -54,16 +54,16 @@ ensures r == (*self is Bit || *self is Int || *self is UInt || *self is Float ||
         ('width', dict(ret='r', props=['C20', 'C08', 'C09'], spec='ensures r == sp_width(*self),')),
         ('is_const', dict(ret='r', props=['C20', 'C08', 'C09', 'C13'], spec='ensures r == sp_is_const(*self),')),
         ('is_quantum', dict(ret='r', props=['C13'], spec='ensures r == (*self is Qubit || *self is QubitArray || *self is HardwareQubit),')),
-        ('dims', dict(ret='r', props=['C20'])),
-        ('num_dims', dict(ret='r', props=['C20'], spec='''
+        ('dims', dict(ret='r', props=['C20', 'C08'])),
+        ('num_dims', dict(ret='r', props=['C20', 'C08'], spec='''
 ensures r == (match *self {
     Type::QubitArray(d) => (match d { ArrayDims::D1(..) => 1usize, ArrayDims::D2(..) => 2usize, ArrayDims::D3(..) => 3usize }),
     Type::IntArray(d) => (match d { ArrayDims::D1(..) => 1usize, ArrayDims::D2(..) => 2usize, ArrayDims::D3(..) => 3usize }),
     Type::BitArray(d, _) => (match d { ArrayDims::D1(..) => 1usize, ArrayDims::D2(..) => 2usize, ArrayDims::D3(..) => 3usize }),
     _ => 0usize }),''')),
-        ('equal_up_to_shape', dict(ret='r', props=['C20'], spec='''
+        ('equal_up_to_shape', dict(ret='r', props=['C20', 'C08'], spec='''
 ensures r == (*self == *other || (*self is BitArray && *other is BitArray) || (*self is QubitArray && *other is QubitArray)),''')),
-        ('equal_up_to_dims', dict(ret='r', props=['C20'], spec='''
+        ('equal_up_to_dims', dict(ret='r', props=['C20', 'C08'], spec='''
 ensures *self == *other ==> r,''')),
     ])
     f.fn('equal_up_to_constness', ret='r', props=['C20', 'C08'],
@@ -77,15 +77,15 @@ ensures
     eq_upto_const(*ty1, *ty2) ==> r,
     (*ty1 is Int && *ty2 is Int) || (*ty1 is UInt && *ty2 is UInt) || (*ty1 is Float && *ty2 is Float)
         || (*ty1 is Complex && *ty2 is Complex) ==> r,''')
-    f.fn('promote_constness', ret='r', props=['C20'], spec='ensures r == c_and(*ty1, *ty2),')
-    f.fn('promote_width', ret='r', props=['C20'], spec='ensures r == wmax(sp_width(*ty1), sp_width(*ty2)),')
-    f.fn('promote_type_width', ret='r', props=['C20'], spec='''
+    f.fn('promote_constness', ret='r', props=['C20', 'C08'], spec='ensures r == c_and(*ty1, *ty2),')
+    f.fn('promote_width', ret='r', props=['C20', 'C08'], spec='ensures r == wmax(sp_width(*ty1), sp_width(*ty2)),')
+    f.fn('promote_type_width', ret='r', props=['C20', 'C08'], spec='''
 ensures
     (*ty1 is Int && *ty2 is Int) ==> r == Type::Int(wmax(sp_width(*ty1), sp_width(*ty2)), c_and(*ty1, *ty2)),
     (*ty1 is UInt && *ty2 is UInt) ==> r == Type::UInt(wmax(sp_width(*ty1), sp_width(*ty2)), c_and(*ty1, *ty2)),
     (*ty1 is Float && *ty2 is Float) ==> r == Type::Float(wmax(sp_width(*ty1), sp_width(*ty2)), c_and(*ty1, *ty2)),
     !((*ty1 is Int && *ty2 is Int) || (*ty1 is UInt && *ty2 is UInt) || (*ty1 is Float && *ty2 is Float)) ==> r == Type::Void,''')
-    f.fn('promote_base_type', ret='r', props=['C20'], spec='''
+    f.fn('promote_base_type', ret='r', props=['C20', 'C08'], spec='''
 ensures
     // cross-kind pairs of the tower: an operand of the higher kind is returned
     (kind_le(*ty1, *ty2) && !kind_le(*ty2, *ty1)) ==> r == *ty2,
